@@ -1,12 +1,12 @@
 package main
 
-// names: the eight rule bodies modelled in lean/ZlModel/Names.lean, run as the real lints through the
+// names: the fourteen rule bodies modelled in lean/ZlModel/Names.lean, run as the real lints through the
 // framework on kit certificates whose subject CN and SAN / IAN name lists are chosen (DER surgery, so
 // non-IA5 and empty names survive), compared verdict by verdict with the model.
 //
 //   names <mask> <cn hex> <cnIsIP> <dns hex,…> <uris hex,…> <ianDns hex,…> <ianUris hex,…>  →  s1,…,s8 ('*' where the lint did not run)
 //
-// The mask says which of the eight lints actually judged (status >= pass); the model is only asked about those.
+// The mask says which of the lints actually judged (status >= pass); the model is only asked about those.
 // What the parser hands the lints (c.DNSNames etc.) is echoed into the op line, so the model sees the parsed view.
 
 import (
@@ -30,6 +30,8 @@ var nameLints = []string{
 	"e_rfc_dnsname_empty_label", "e_dnsname_empty_label",
 	"e_ext_san_space_dns_name", "e_ext_ian_space_dns_name",
 	"e_ext_san_uri_not_ia5", "e_ext_ian_uri_not_ia5",
+	"e_dnsname_wildcard_only_in_left_label", "e_dnsname_left_label_wildcard_correct", "e_underscore_not_permissible_in_dnsname",
+	"e_san_dns_name_includes_null_char", "e_san_dns_name_starts_with_period", "e_san_wildcard_not_first",
 }
 
 func hexList(xs []string) string {
@@ -154,7 +156,7 @@ func subNames(out string, seed uint64, tier string, arg string) {
 		}
 	}
 	for _, d := range dnsAtoms {
-		for _, cn := range []string{"", "192.0.2.1", d, "other.example.org", strings.Repeat("c", 64) + ".example.com", "a..b.example.com", "2001:db8::1"} {
+		for _, cn := range []string{"", "192.0.2.1", d, "other.example.org", strings.Repeat("c", 64) + ".example.com", "a..b.example.com", "2001:db8::1", "*.example.com", "a.*.example.com", "w*.example.com", "*"} {
 			run(cn, []string{d}, nil, []string{d}, nil)
 		}
 		run("", []string{"ok.example.com", d}, nil, []string{d, "ok.example.com"}, nil)
